@@ -229,7 +229,7 @@ func timesParseDuration(args ...tengo.Object) (
 
 	dur, err := time.ParseDuration(s1)
 	if err != nil {
-		ret = wrapError(err)
+		ret, err = wrapError(err), nil
 		return
 	}
 
@@ -516,7 +516,7 @@ func timesDate(args ...tengo.Object) (
 		}
 		loc, err = time.LoadLocation(i8)
 		if err != nil {
-			ret = wrapError(err)
+			ret, err = wrapError(err), nil
 			return
 		}
 	} else {
@@ -570,7 +570,7 @@ func timesParse(args ...tengo.Object) (ret tengo.Object, err error) {
 
 	parsed, err := time.Parse(s1, s2)
 	if err != nil {
-		ret = wrapError(err)
+		ret, err = wrapError(err), nil
 		return
 	}
 
@@ -1168,7 +1168,7 @@ func timesInLocation(args ...tengo.Object) (
 
 	location, err := time.LoadLocation(s2)
 	if err != nil {
-		ret = wrapError(err)
+		ret, err = wrapError(err), nil
 		return
 	}
 
